@@ -179,6 +179,20 @@ def k_metric(ctx, cls, w, anchors, comps, index=None, extra=False, cols="AB"):
         if not outp.ok or not np.array_equal(np.asarray(outp.value).astype(float), want[perm, :]):
             ctx.violation(f"{cls}:cdist:row-order-dependent", "permuting the anchor rows does not permute the matrix rows accordingly",
                           outp.describe(), want[perm, :])
+    # the caller edits its own anchor table in place (row 0 takes the content of the first comparison row) and asks the same
+    # metric object again: the value depends on the rows' present contents only
+    if out.ok and list(anchors[0]) != list(comps[0]):
+        names = {"TRAV": 0, "CDR3A": 1, "TRBV": 2, "CDR3B": 3}
+        for col, k in names.items():
+            if col in dfa.columns:
+                dfa.iat[0, dfa.columns.get_loc(col)] = comps[0][k]
+        edited = [list(comps[0])] + [list(r) for r in anchors[1:]]
+        want_e = _matrix(cls, w, edited, comps)
+        oute = ctx.call(metric.calc_cdist_matrix, dfa, dfb)
+        ctx.count("same_table_object_edited_then_reused")
+        if not oute.ok or not np.array_equal(np.asarray(oute.value).astype(float), want_e):
+            ctx.violation(f"{cls}:cdist:edited-table", "after the caller edited a row of its table in place, the same metric object does not return the distances of the present contents",
+                          oute.describe(), want_e, {"weights": w})
 
 
 def k_additive(ctx, w, anchors, comps):
